@@ -142,6 +142,16 @@ def analyzer_stream(ctx, quick):
     fixed = {'applesoft': ['10 ONERR GOTO 100: REM x\n100 END\n', '10 ONERR GOTO 100:REM\n', '10 PRINT "é":REM é\n', '10 A=1:B=2:REM x:ONERR GOTO 10\n'],
              'integerbasic': ['10 PRINT "é"\n', '10 REM é\n', '10 IF X THEN REM x \n'],
              'merlin': ['L2 TXé .D\n', ' LDé #1\n', 'é\n', ' ASC "é"\n', ' LUP 2\n --^\n', ' MAC\n', ' <<<\n', 'L PUT é\n', ' DO 1\n', ' FIN\n', ' ELSE\n', 'é EQU é\n', ' ADRLé 1\n', ' STRé "a"\n']}
+    # local labels where no global label has opened a scope yet, and where only a global one makes sense
+    fixed['merlin'] += [' DO :X\n', ' LUP :N\n --^\n', ':A EQU :B\n', ' VAR :A\n', ' ENT :FOO\n', ' EXT :FOO\n', ':LOC LDA #1\n', ' IF :X\n', ' DS :N\n', ']V = :X\n']
+    # every state a line passes through while it is typed: each prefix of a set of lines (a lone quote, half an operand, ...)
+    typed = {'merlin': ["A EQU 'X'", 'A EQU "X"', " LDA #'A'", ' ASC "HI",00', 'L1 LDA ($10),Y ;c', " MX %11", " DO 'A'=\"A\"", "]V = 'Q'", 'M MAC', ' >>> M,1;2', ' DS 2,$FF', ' STR "AB"', ' LDA #<L1+1'],
+             'applesoft': ['10 PRINT "A";CHR$(4):GOTO 10', '10 IF A$="X" THEN 20', '10 DEF FN A(X)=X*2', '10 DATA "A,B",C', '10 ON X GOSUB 10,20'],
+             'integerbasic': ['10 PRINT "A";A$(1,2)', '10 IF X#1 THEN 20', '10 DIM A$(10)', '10 FOR I=1 TO 10 STEP 2']}
+    for lang, tl in typed.items():
+        for t in tl:
+            for n in range(1, len(t) + 1):
+                fixed[lang].append(t[:n] + '\n')
     for lang, docs in fixed.items():
         for t in docs:
             lines.append(f"analyze z{k} {lang} {t.encode().hex() or '-'}")
